@@ -172,16 +172,21 @@ theorem loop_r (cfg : Cfg) (s : State) (buf : Bytes) (h : RInv s) : RInv (loop c
       · exact ih _ (by rw [← hn]; simp only [popFrame, List.length_drop]; omega) _ _ hf rfl
 
 theorem rinv_step (cfg : Cfg) (s : State) (e : Ev) (h : RInv s) : RInv (step cfg s e).1 := by
-  have hk : RInv (kick s).1 := by
+  have hk : RInv (kick cfg s).1 := by
     unfold kick; split
     · exact rinv_of_eq h rfl rfl rfl rfl rfl
     · exact h
   unfold step
-  generalize (kick s).1 = s1 at hk ⊢
-  generalize (kick s).2 = pre
+  generalize (kick cfg s).1 = s1 at hk ⊢
+  generalize (kick cfg s).2 = pre
   unfold stepK
   cases e with
   | idle => exact hk
+  | start =>
+    simp only
+    split
+    · exact rinv_of_eq hk rfl rfl rfl rfl rfl
+    · exact hk
   | sub ch =>
     simp only
     split
@@ -266,7 +271,9 @@ theorem rinv_step (cfg : Cfg) (s : State) (e : Ev) (h : RInv s) : RInv (step cfg
       · exact hk
       · split
         · exact rinv_of_eq hk rfl rfl rfl rfl rfl
-        · exact rinv_of_eq hk rfl rfl rfl rfl rfl
+        · split
+          · exact rinv_of_eq hk rfl rfl rfl rfl rfl
+          · exact rinv_of_eq hk rfl rfl rfl rfl rfl
 
 /-- what frame handling can NOT change: the task, the closing flags, time, the wanted set, the counters,
     and the identity / liveness of the current connection -/
@@ -439,10 +446,11 @@ theorem tinv_of_tsame {s s' : State} (h : TInv s) (hs : TSame s s') : TInv s' :=
    by rw [hs.closeCalled, hs.closing, hs.closeWait, hs.task]; exact h.opened,
    by rw [hs.closeWait, hs.task]; exact h.wait⟩
 
-theorem tinv_kick {s : State} (h : TInv s) : TInv (kick s).1 := by
+theorem tinv_kick {cfg : Cfg} {s : State} (h : TInv s) : TInv (kick cfg s).1 := by
   unfold kick
   split
-  · rename_i ht
+  · rename_i ht0
+    have ht := ht0.2
     have hnl : ¬ ∃ c, s.conn = some c ∧ c.gone = false := fun hl => by
       have := h.live.mp hl; rw [ht] at this; cases this
     refine ⟨⟨fun hl => absurd hl hnl, fun h' => by cases h'⟩, ?_, ?_, ?_⟩
@@ -451,16 +459,28 @@ theorem tinv_kick {s : State} (h : TInv s) : TInv (kick s).1 := by
     · intro hw; have := h.wait hw; rw [ht] at this; cases this
   · exact h
 
-theorem kick_started (s : State) : (kick s).1.task ≠ .notStarted := by
+theorem kick_started (cfg : Cfg) (s : State) (ha : cfg.autoStart = true) : (kick cfg s).1.task ≠ .notStarted := by
   unfold kick; split
   · intro h; cases h
-  · assumption
+  · rename_i h; intro h'; exact h ⟨ha, h'⟩
 
-theorem tinv_stepK (cfg : Cfg) (s : State) (pre : List Out) (e : Ev) (hns : s.task ≠ .notStarted) (h : TInv s) :
+theorem tinv_stepK (cfg : Cfg) (s : State) (pre : List Out) (e : Ev) (h : TInv s) :
     TInv (stepK cfg s pre e).1 := by
   unfold stepK
   cases e with
   | idle => exact h
+  | start =>
+    simp only
+    split
+    · rename_i hst
+      have ht := hst.1
+      have hnl : ¬ ∃ c, s.conn = some c ∧ c.gone = false := fun hl => by
+        have := h.live.mp hl; rw [ht] at this; cases this
+      refine ⟨⟨fun hl => absurd hl hnl, fun h' => by cases h'⟩, ?_, ?_, ?_⟩
+      · intro hc; have := (h.closed hc).2; rw [ht] at this; rcases this with h' | h' <;> cases h'
+      · intro ho; exact ⟨(h.opened ho).1, (h.opened ho).2.1, by intro h'; cases h'⟩
+      · intro hw; have := h.wait hw; rw [ht] at this; cases this
+    · exact h
   | sub ch =>
     simp only
     split
@@ -602,14 +622,20 @@ theorem tinv_stepK (cfg : Cfg) (s : State) (pre : List Out) (e : Ev) (hns : s.ta
             cases hcc : s.closeCalled with
             | false => rfl
             | true => have := (h.closed hcc).1; rw [hcl'] at this; cases this
-          refine ⟨⟨?_, fun h' => by cases h'⟩, ?_, ?_, ?_⟩
-          · rintro ⟨c', h1, _⟩; cases h1
-          · intro h'; simp only at h'; rw [hcc] at h'; cases h'
-          · intro _; exact ⟨hcl', (h.opened hcc).2.1, by intro h'; cases h'⟩
-          · intro h'; simp only at h'; rw [(h.opened hcc).2.1] at h'; cases h'
+          split
+          · refine ⟨⟨?_, fun h' => by cases h'⟩, ?_, ?_, ?_⟩
+            · rintro ⟨c', h1, _⟩; cases h1
+            · intro h'; simp only at h'; rw [hcc] at h'; cases h'
+            · intro _; exact ⟨hcl', (h.opened hcc).2.1, by intro h'; cases h'⟩
+            · intro h'; simp only at h'; rw [(h.opened hcc).2.1] at h'; cases h'
+          · refine ⟨⟨?_, fun h' => by cases h'⟩, ?_, ?_, ?_⟩
+            · rintro ⟨c', h1, _⟩; cases h1
+            · intro h'; simp only at h'; rw [hcc] at h'; cases h'
+            · intro _; exact ⟨hcl', (h.opened hcc).2.1, by intro h'; cases h'⟩
+            · intro h'; simp only at h'; rw [(h.opened hcc).2.1] at h'; cases h'
 
 theorem tinv_step (cfg : Cfg) (s : State) (e : Ev) (h : TInv s) : TInv (step cfg s e).1 :=
-  tinv_stepK cfg _ _ e (kick_started s) (tinv_kick h)
+  tinv_stepK cfg _ _ e (tinv_kick h)
 
 /-! ### what is written on a connection (C11) -/
 
@@ -942,7 +968,7 @@ theorem full_init (cfg : Cfg) : FullInv cfg {} :=
 theorem full_of_conn_eq {cfg : Cfg} {s s' : State} (h : FullInv cfg s) (hc : s'.conn = s.conn) : FullInv cfg s' :=
   ⟨fun c hc' => h.conn c (by rw [← hc]; exact hc'), fun c hc' => h.bytes c (by rw [← hc]; exact hc')⟩
 
-theorem full_kick {cfg : Cfg} {s : State} (h : FullInv cfg s) : FullInv cfg (kick s).1 := by
+theorem full_kick {cfg : Cfg} {s : State} (h : FullInv cfg s) : FullInv cfg (kick cfg s).1 := by
   unfold kick; split
   · exact full_of_conn_eq h rfl
   · exact h
@@ -952,6 +978,11 @@ theorem full_stepK (cfg : Cfg) (s : State) (pre : List Out) (e : Ev) (h : FullIn
   unfold stepK
   cases e with
   | idle => exact h
+  | start =>
+    simp only
+    split
+    · exact full_of_conn_eq h rfl
+    · exact h
   | sub ch =>
     simp only
     split
@@ -1022,7 +1053,9 @@ theorem full_stepK (cfg : Cfg) (s : State) (pre : List Out) (e : Ev) (h : FullIn
             have k := h.conn c hc
             exact ⟨k.quiet, k.hs, k.rdy⟩
           · simp only [Option.some.injEq] at hc'; rw [← hc']; exact h.bytes c hc
-        · exact ⟨(fun c' hc' => by cases hc'), (fun c' hc' => by cases hc')⟩
+        · split
+          · exact ⟨(fun c' hc' => by cases hc'), (fun c' hc' => by cases hc')⟩
+          · exact ⟨(fun c' hc' => by cases hc'), (fun c' hc' => by cases hc')⟩
   | data b =>
     simp only
     split
@@ -1106,6 +1139,7 @@ theorem stepK_subs (cfg : Cfg) (s : State) (pre : List Out) (e : Ev) :
   unfold stepK
   cases e with
   | idle => rfl
+  | start => simp only; split <;> rfl
   | sub ch =>
     simp only
     split
@@ -1142,7 +1176,9 @@ theorem stepK_subs (cfg : Cfg) (s : State) (pre : List Out) (e : Ev) :
             · rfl
             · split
               · rfl
-              · split <;> rfl
+              · split
+                · rfl
+                · split <;> rfl
   | data b =>
     simp only
     split
@@ -1155,7 +1191,7 @@ theorem stepK_subs (cfg : Cfg) (s : State) (pre : List Out) (e : Ev) :
         simp only
         cases r.1.conn <;> exact this
 
-theorem kick_subs (s : State) : (kick s).1.subs = s.subs := by unfold kick; split <;> rfl
+theorem kick_subs (cfg : Cfg) (s : State) : (kick cfg s).1.subs = s.subs := by unfold kick; split <;> rfl
 
 /-- the session's wanted set is exactly that function of the application calls -/
 theorem subs_eq_wantedOf (cfg : Cfg) (es : List Ev) : (run cfg es).1.subs = wantedOf es := by
@@ -1173,7 +1209,7 @@ theorem subs_eq_wantedOf (cfg : Cfg) (es : List Ev) : (run cfg es).1.subs = want
     intro acc w h
     simp only [List.foldl_cons]
     apply ih
-    show (stepK cfg (kick acc.1).1 (kick acc.1).2 e).1.subs = _
+    show (stepK cfg (kick cfg acc.1).1 (kick cfg acc.1).2 e).1.subs = _
     rw [stepK_subs, kick_subs, h]
 
 theorem mem_insertSorted (x y : Bytes) (l : List Bytes) : y ∈ insertSorted x l ↔ y = x ∨ y ∈ l := by
@@ -1307,15 +1343,17 @@ theorem noatt_loop (cfg : Cfg) (s : State) (buf : Bytes) : Out.attempt ∉ (loop
 theorem no_attempt_after_close (cfg : Cfg) (s : State) (e : Ev) (h : TInv s) (hc : s.closeCalled = true) :
     (step cfg s e).1.attempts = s.attempts ∧ Out.attempt ∉ (step cfg s e).2 := by
   obtain ⟨hcl, ht⟩ := h.closed hc
-  have hk : kick s = (s, []) := by
+  have hk : kick cfg s = (s, []) := by
     unfold kick
     rw [if_neg]
-    rcases ht with h' | h' <;> (rw [h']; intro h''; cases h'')
+    rintro ⟨_, h''⟩
+    rcases ht with h' | h' <;> (rw [h'] at h''; cases h'')
   unfold step
   rw [hk]
   unfold stepK
   cases e with
   | idle => constructor <;> simp
+  | start => simp only [hc]; constructor <;> simp
   | sub ch =>
     simp only
     split
@@ -1374,8 +1412,8 @@ theorem no_attempt_after_close (cfg : Cfg) (s : State) (e : Ev) (h : TInv s) (hc
           exact ⟨h2, by split <;> simp⟩
 
 
-theorem kick_of_started {s : State} (h : s.task ≠ .notStarted) : kick s = (s, []) := by
-  unfold kick; rw [if_neg h]
+theorem kick_of_started {cfg : Cfg} {s : State} (h : s.task ≠ .notStarted) : kick cfg s = (s, []) := by
+  unfold kick; rw [if_neg (fun h' => h h'.2)]
 
 /-- close() with no live transport: returns at once, the reconnect task is cancelled -/
 theorem close_no_transport (cfg : Cfg) (s : State) (hs : s.task ≠ .notStarted) (hc : s.closeCalled = false)
@@ -1417,15 +1455,29 @@ theorem lost_completes_close (cfg : Cfg) (s : State) (c : Conn) (hs : s.task ≠
   simp [hn, hg, hcl, hw]
 
 /-- RECONNECTION, phase by phase.  (1) a live connection is lost while not closing: a new attempt is made
-    at once -/
+    at once (asyncio), or after the retry delay (Twisted) -/
 theorem reconnect_after_loss (cfg : Cfg) (s : State) (c : Conn) (hs : s.task ≠ .notStarted)
     (hn : s.conn = some c) (hg : c.gone = false) (hcl : s.closing = false) :
-    (step cfg s .lost).2 = [.attempt] ∧ (step cfg s .lost).1.task = .connecting ∧
-    (step cfg s .lost).1.conn = none ∧ (step cfg s .lost).1.subs = s.subs := by
-  unfold step
-  rw [kick_of_started hs]
-  unfold stepK
-  simp [hn, hg, hcl]
+    (step cfg s .lost).1.conn = none ∧ (step cfg s .lost).1.subs = s.subs ∧
+    (cfg.lossDelay = 0 → (step cfg s .lost).2 = [.attempt] ∧ (step cfg s .lost).1.task = .connecting) ∧
+    (cfg.lossDelay ≠ 0 → (step cfg s .lost).1.task = .sleeping (s.now + cfg.lossDelay) ∧
+      ∀ ms, s.now + cfg.lossDelay ≤ s.now + ms →
+        (step cfg (step cfg s .lost).1 (.advance ms)).2 = [.attempt] ∧
+        (step cfg (step cfg s .lost).1 (.advance ms)).1.task = .connecting) := by
+  by_cases hd : cfg.lossDelay = 0
+  · have e1 : step cfg s .lost =
+        ({ s with conn := none, task := .connecting, attempts := s.attempts + 1 }, [.attempt]) := by
+      unfold step; rw [kick_of_started hs]; unfold stepK; simp [hn, hg, hcl, hd]
+    rw [e1]
+    exact ⟨rfl, rfl, fun _ => ⟨rfl, rfl⟩, fun h => absurd hd h⟩
+  · have e1 : step cfg s .lost = ({ s with conn := none, task := .sleeping (s.now + cfg.lossDelay) }, []) := by
+      unfold step; rw [kick_of_started hs]; unfold stepK; simp [hn, hg, hcl, hd]
+    rw [e1]
+    refine ⟨rfl, rfl, fun h => absurd h hd, fun _ => ⟨rfl, fun ms hms => ?_⟩⟩
+    unfold step
+    rw [kick_of_started (by intro h; cases h)]
+    unfold stepK
+    simp [hms]
 
 /-- (2) a refused attempt is retried after one second -/
 theorem retry_after_refusal (cfg : Cfg) (s : State) (hs : s.task = .connecting) :
